@@ -553,6 +553,18 @@ def gen_entry(rng, h, kind):
         n_ids = rng.randint(1, 3)
         pop = gen_pop_recipe(rng, n_dim_total=nd, allow_cov=False)
         pop = _no_tg(pop)
+        if kind == 'init_hp' and rng.random() < 0.25:
+            # no dimension varies between individuals (all pooled and / or
+            # heterogeneous): there are no bottom-level parameters to draw
+            k_ = rng.randint(0, nd)
+            subs = []
+            if k_:
+                subs.append({'cls': 'P', 'n_dim': k_})
+            if nd - k_:
+                subs.append({'cls': 'H', 'n_dim': nd - k_, 'n_ids': n_ids})
+            rng.shuffle(subs)
+            pop = subs[0] if len(subs) == 1 else {'cls': 'COMP',
+                                                  'subs': subs}
         r['pop'] = set_n_ids_recipe(pop, n_ids if kind == 'init_hp'
                                     else rng.randint(2, 3))
         r['n_ids'] = n_ids
